@@ -680,7 +680,7 @@ def oracle(case, obs):
             if got != want:
                 return 'first range of %r on %d bytes: RFC 7233 says %s, got %s' % (case['header'][:60], L, want, got)
         return None
-    data = fbytes(case)
+    data = fbytes(case) if k != 'present' else b''
     if k == 'iter':
         if 'chunks' not in obs:
             return '_file_iter_range escaped: %s' % obs
